@@ -34,6 +34,8 @@ SmallVal(p) == ~p.alive \/ (Len(p.C) <= 8 /\ Len(p.G) <= 8 /\ MaxAbs(p.C) <= Bou
 WF(p) == ~p.alive \/ (IF p.empty THEN Len(p.G) = 0 ELSE MinPairEq(p.C, p.G, M(p)))
 GContains(x, y) == IF y.empty THEN TRUE ELSE IF x.empty THEN FALSE ELSE AllSat(x.C, y.G)     \* y subset of x
 SameG(a, b) == IF a.empty \/ b.empty THEN a.empty = b.empty ELSE AllSat(a.C, b.G) /\ AllSat(b.C, a.G)
+GWidenOps == {"congruence_widening", "generator_widening", "widening", "limited_congruence", "limited_generator", "limited_extrapolation"}
+GLimOps == {"limited_congruence", "limited_generator", "limited_extrapolation"}
 Same(a, b) == (a.alive = b.alive) /\ (~a.alive \/ (a.n = b.n /\ (Proj(a) = Proj(b) \/ SameG(a, b))))
 \* exact disjointness of two non-empty grids given by minimized generators: the difference of their points is not in Z*params + Q*lines
 DisjointGG(Gx, Gy, m) ==
@@ -107,7 +109,8 @@ Pre(e, d, s) ==
   ELSE IF op = "add_grid_generator" THEN (IF e.argn > n THEN "inv" ELSE IF d.empty /\ e.k # "point" THEN "inv" ELSE "ok")
   ELSE IF op = "add_grid_generators" THEN (IF Len(e.gs) = 0 THEN "any" ELSE IF e.argn > n THEN "inv" ELSE IF d.empty /\ ~HasPoint(e.gs) THEN "inv" ELSE "ok")
   ELSE IF op \in {"contains", "strictly_contains", "is_disjoint_from", "intersection", "upper_bound", "upper_bound_if_exact", "difference", "time_elapse",
-                  "congruence_widening", "generator_widening"} THEN (IF s.n # n THEN "inv" ELSE "ok")
+                  "congruence_widening", "generator_widening", "widening"} THEN (IF s.n # n THEN "inv" ELSE "ok")
+  ELSE IF op \in GLimOps THEN (IF s.n # n THEN "inv" ELSE IF Len(e.cs) > 0 /\ e.argn > n THEN "inv" ELSE "ok")
   ELSE IF op \in {"affine_image", "affine_preimage", "gen_affine_image", "gen_affine_preimage"} THEN (IF e.den = 0 \/ e.var >= n \/ Len(e.v) - 1 > n THEN "inv" ELSE "ok")
   ELSE IF op \in {"bounds_from_above", "bounds_from_below", "maximize", "minimize", "frequency"} THEN (IF Len(e.v) - 1 > n THEN "inv" ELSE "ok")
   ELSE IF op \in {"constrains", "unconstrain"} THEN (IF e.var >= n THEN "inv" ELSE "ok")
@@ -126,6 +129,34 @@ AddCgs(d, r, CC, m, tag) ==
   ELSE IF \E i \in 1..Len(CC) : RelCg(d, CC[i], m).dis THEN "ok"
   ELSE IF Len(CC) <= 1 THEN tag          \* a single congruence that is not disjoint from d cannot empty it
   ELSE "und"
+(* ---- grid widenings (C08); harness protocol as for polyhedra: z = d joined with s, `plain` (no tokens, no limiting congruences) on a copy,
+   `wtwin` on arguments rebuilt through another history (rr.num = tokens left there).  The certificate of a grid is the pair
+   (number of equalities, number of proper congruences) of its minimized congruence system; a non-stationary step must decrease it. *)
+GCert(p) == [ne |-> Cardinality({i \in 1..Len(p.C) : p.C[i].mod = 0}), np |-> Cardinality({i \in 1..Len(p.C) : p.C[i].mod # 0})]
+GStab(new, old) == new.ne < old.ne \/ (new.ne = old.ne /\ new.np < old.np)
+GWidenCheck(e, d, s, r, m) ==
+  LET zG == (IF d.empty THEN <<>> ELSE d.G) \o (IF s.empty THEN <<>> ELSE s.G)
+      zEmpty == d.empty /\ s.empty
+      IsZ(x) == IF zEmpty THEN x.empty ELSE EqG(x, zG, m)
+      pl == e.plain  tw == e.wtwin  t == e.den
+      isLim == e.op \in GLimOps
+      keeps(c) == LET row == [mod |-> c.mod, v |-> Pad(c.v, m)] IN (zEmpty \/ AllSat(<<row>>, zG)) => (r.empty \/ AllSat(<<row>>, r.G))
+  IN IF r.n # d.n \/ ~(GContains(r, d) /\ GContains(r, s)) THEN "C08:widening-not-an-upper-bound"
+     ELSE IF ~pl.alive \/ ~tw.alive \/ ~SmallVal(pl) \/ ~SmallVal(tw) THEN "und"
+     ELSE IF ~WF(pl) \/ ~WF(tw) THEN "C05:descriptions-disagree"
+     ELSE IF ~(pl.ok /\ tw.ok) THEN "C05:OK()"
+     ELSE IF ~(Same(Proj(r), Proj(tw)) /\ (e.mod = 0 \/ e.ri = e.rr.num)) THEN "C08:widening-depends-on-the-representation-of-its-arguments"
+     ELSE IF e.mod > 0 /\ t > 0 THEN
+          (IF isLim THEN V1(GContains(pl, r) /\ (e.ri = t \/ (e.ri = t - 1 /\ IsZ(r))), "C08:limited-extrapolation-with-tokens")
+           ELSE IF IsZ(pl) THEN V1(IsZ(r) /\ e.ri = t, "C08:token-consumed-although-widening-loses-nothing")
+           ELSE V1(IsZ(r) /\ e.ri = t - 1, "C08:token-not-consumed-or-object-changed-when-widening-would-lose-precision"))
+     ELSE IF isLim THEN
+          (IF ~GContains(pl, r) THEN "C08:limited-extrapolation-exceeds-the-plain-widening"
+           ELSE IF ~(\A i \in 1..Len(e.cs) : keeps(e.cs[i])) THEN "C08:limited-extrapolation-drops-a-supplied-congruence-satisfied-by-the-argument"
+           ELSE "ok")
+     ELSE IF ~Same(Proj(r), Proj(pl)) THEN "C08:widening-differs-from-the-plain-widening-of-a-copy"
+     ELSE IF s.empty \/ r.empty \/ Same(Proj(r), s) THEN "ok"
+     ELSE V1(GStab(GCert(r), GCert(s)), "C08:grid-certificate-does-not-decrease-on-a-non-stationary-step")
 Sem(e, d, s, r, m) ==
   LET op == e.op IN
   IF op = "new" THEN V1(r.alive /\ r.n = e.argn /\ (IF e.k = "empty" THEN r.empty ELSE ~r.empty /\ Len(Lines(r.G)) = e.argn), "C05:constructor")
@@ -263,7 +294,7 @@ Sem(e, d, s, r, m) ==
                  RECURSIVE All(_)
                  All(i) == IF i = 0 THEN Cx ELSE All(i - 1) \o copy(i)
              IN V1(r.n = d.n + k /\ EqC(r, All(k), m + k), "C05:expand"))
-  ELSE IF op \in {"congruence_widening", "generator_widening"} THEN V1(r.n = d.n /\ GContains(r, d) /\ GContains(r, s), "C08:widening-not-an-upper-bound")
+  ELSE IF op \in GWidenOps THEN GWidenCheck(e, d, s, r, m)
   ELSE "und"
 Check(e) ==
   LET d == val[e.dst]  s == IF e.src > 0 THEN val[e.src] ELSE d  r == e.post[e.dst]  m == M(d)
